@@ -10,12 +10,13 @@ import vlib, m2, m3
 from batch import Batch, J
 from props.c02 import HAND, defs_of, small_ints, typeless_struct
 
-PROOF_TARGETS = ["TypifyModel.Proofs.C03Valid", "TypifyModel.Proofs.C03", "TypifyModel.Proofs.C03Contain", "TypifyModel.Proofs.FlattenFindings"]
+PROOF_TARGETS = ["TypifyModel.Proofs.C03Valid", "TypifyModel.Proofs.C03", "TypifyModel.Proofs.C03Contain", "TypifyModel.Proofs.FlattenFindings", "TypifyModel.Proofs.Exclusive"]
 PROOF_FILES = ["Proofs/C03Valid.lean", "Proofs/C03.lean", "Proofs/Lemmas/RoundTripLemmas.lean", "Proofs/Lemmas/RoundTripStruct.lean",
                "Proofs/Lemmas/RoundTripStruct2.lean", "Proofs/Lemmas/RoundTripMain.lean", "Proofs/Lemmas/RoundTripEnum.lean",
                "Proofs/Lemmas/SortedKv.lean", "Proofs/C03Contain.lean", "Proofs/Lemmas/ContainBasic.lean", "Proofs/Lemmas/ContainRefl.lean",
                "Proofs/Lemmas/ContainList.lean", "Proofs/Lemmas/ContainStruct.lean", "Proofs/Lemmas/ContainEnum.lean",
-               "Proofs/Lemmas/RoundTripFlat.lean", "Proofs/Lemmas/ContainFlat.lean", "Proofs/FlattenFindings.lean"]
+               "Proofs/Lemmas/RoundTripFlat.lean", "Proofs/Lemmas/ContainFlat.lean", "Proofs/FlattenFindings.lean",
+               "Proofs/Exclusive.lean", "Model/Exclusive.lean"]
 
 def cases(ctx):
     import gen
@@ -165,7 +166,14 @@ def attribute(findings, c, key, v, what):
 def run(ctx):
     import gen
     findings = vlib.load_findings("C03")
-    st = vlib.proof_stage(ctx, "C03", PROOF_TARGETS, PROOF_FILES, slices=["ir"])
+    st = vlib.proof_stage(ctx, "C03", PROOF_TARGETS, PROOF_FILES, slices=["ir", "excl"])
+    # which unions become enums at all: the exclusivity test of util.rs against its model (M0)
+    import exclstage
+    xstats, xdis = exclstage.stage(ctx, ctx.tier == "thorough") if st["driver_ok"] else ({"ran": False}, [])
+    ctx.log("exclusivity M0: %s disagreements=%d" % (xstats, len(xdis)))
+    if xdis:
+        st["broken"].append("correspondence M0 (util.rs all_mutually_exclusive vs Model/Exclusive.lean) disagrees on %d of %d requests" % (len(xdis), xstats.get("requests", 0)))
+        json.dump(xdis[:50], open(vlib.os.path.join(vlib.CACHE, "c03_excl_disagreements.json"), "w"), indent=1)
     cs = cases(ctx)
     b = Batch(ctx, assertions=False, ops=("de", "rt"), ops_for="all")
     bc = []
@@ -280,8 +288,8 @@ def run(ctx):
     if broken and not fails:
         vlib.violation(ctx, {"property": "C03", "kind": "property no longer shown to hold", "broken_obligations": broken,
                              "first_disagreements": [{"case": rq[0].tag, "input": rq[0].request, "type_id": rq[1], "payload": rq[3], "compiled": ra, "model": ma} for rq, ra, ma in r["disagreements"][:3]],
-                             "lean_log": st.get("log", "")}, no_input=True)
-    cov = {"obligations": st["obligations"], "discharged": st["discharged"],
+                             "exclusivity_disagreements": xdis[:3], "lean_log": st.get("log", "")}, no_input=True)
+    cov = {"exclusivity_M0": xstats,"obligations": st["obligations"], "discharged": st["discharged"],
            "checker_cmd": "cd /verif/lean && lake build TypifyModel.Proofs.C03 && lake env lean TypifyModel/Audit/C03.lean",
            "trusted_base": vlib.TRUSTED_BASE + ["python-jsonschema (tools/oracle.py)", "serde modelled (Model/Serde*.lean), tied by M3 op rt", "rustc"],
            "axioms": st.get("axioms", {}), "evaluations": len(reqs), "distinct_nontrivial": len(reqs),
